@@ -180,6 +180,7 @@ def run_case(ctx):
         if not descs:
             shutil.rmtree(tree, ignore_errors=True)
             continue
+        core.age_tree(ctx, tree)
         ctx.stats["damaged_trees"] += 1
         is_coord = any(op.startswith("gh.") for op, _ in plan)
         judged = damage.effective_damage(tree, nboxes, len(m.fields), m.ndims, limit)
